@@ -8,6 +8,7 @@ package chooser
 
 import (
 	"fmt"
+	"io"
 
 	"pgregory.net/rapid"
 )
@@ -49,6 +50,15 @@ func gen(n int) *rapid.Generator[int] {
 type Rapid struct {
 	T   *rapid.T
 	rec []Choice
+	// Stream, if set, receives every choice as one JSON line the moment it is
+	// made (unbuffered): what was drawn survives a crash of the process.
+	Stream io.Writer
+}
+
+func (r *Rapid) stream(c Choice) {
+	if r.Stream != nil {
+		fmt.Fprintf(r.Stream, "{\"l\":%q,\"n\":%d,\"v\":%d}\n", c.L, c.N, c.V)
+	}
 }
 
 func NewRapid(t *rapid.T) *Rapid { return &Rapid{T: t, rec: make([]Choice, 0, 256)} }
@@ -62,12 +72,14 @@ func (r *Rapid) Draw(n int, label string) int {
 		v = gen(n).Draw(r.T, label)
 	}
 	r.rec = append(r.rec, Choice{L: label, N: uint64(n), V: uint64(v)})
+	r.stream(r.rec[len(r.rec)-1])
 	return v
 }
 
 func (r *Rapid) Word(label string) uint64 {
 	v := wordGen.Draw(r.T, label)
 	r.rec = append(r.rec, Choice{L: label, N: 0, V: v})
+	r.stream(r.rec[len(r.rec)-1])
 	return v
 }
 
@@ -98,13 +110,27 @@ type List struct {
 	// panicking. Used to replay a hang: its list was cut at an arbitrary point
 	// of a loop that kept asking.
 	PadZero bool
+	// Lenient: arities and labels need not match (a recorded value is reduced
+	// modulo the number of alternatives asked for). Used only to re-run a
+	// failure whose schedule depended on real timing (detached threads).
+	Lenient bool
 }
 
 func NewList(cs []Choice, strict bool) *List { return &List{in: cs, Strict: strict} }
 
 func (l *List) next(n uint64, label string) uint64 {
-	if l.pos >= len(l.in) && l.PadZero {
+	if l.pos >= len(l.in) && (l.PadZero || l.Lenient) {
 		return 0
+	}
+	if l.Lenient {
+		// Timing-dependent run: follow the recorded choices as far as they
+		// make sense.
+		c := l.in[l.pos]
+		l.pos++
+		if n == 0 {
+			return c.V
+		}
+		return c.V % n
 	}
 	if l.pos >= len(l.in) {
 		panic(Exhausted{fmt.Sprintf("choice list exhausted at #%d (%s/%d)", l.pos, label, n)})
